@@ -149,8 +149,13 @@ def _objects(ctx, srv, g, HEADER, corr):
             text = g.render(tree, style=style)
             if rng.random() < 0.06:
                 k = rng.randrange(len(text))
-                text = text[:k] + rng.choice(["\x01", "\x0b", "\x1f"]) + text[k:]
-                g.features["cleanup:control-char"] += 1
+                # the two text clean-ups are applied in the order PHOTO prefix, then control characters: a control character
+                # inside the header of a PHOTO data-URI line disables the PHOTO clean-up (two malformations at once, outside the
+                # documented cases): keep the planted control character out of that line
+                a, b = text.rfind("\n", 0, k) + 1, text.find("\n", k)
+                if "data:" not in text[a:(b if b >= 0 else len(text))] or not text[a:].upper().startswith("PHOTO"):
+                    text = text[:k] + rng.choice(["\x01", "\x0b", "\x1f"]) + text[k:]
+                    g.features["cleanup:control-char"] += 1
             path = coll + "o%d.%s" % (i, "vcf" if kind == "card" else "ics")
             st, h, _ = srv.put(path, text)
             ctx.count("put:%d" % st)
@@ -460,7 +465,10 @@ def _whole_collections(ctx, srv, g, HEADER, corr):
             coll2 = "/u/whole%db/" % wi
             st2, _, _ = srv.put(coll2, exported, CONTENT_TYPE="text/calendar")
             exported2 = srv.request("GET", coll2)[2].decode("utf-8")
-            if st2 != 201 or X.facts(exported2) != X.facts(exported):
+            if (st2 != 201 or X.facts(exported2) != X.facts(exported)) and ws_only_continuation(exported):
+                ctx.violation("re-upload of an exported calendar is not a fixed point (white-space-only continuation line)",
+                              dict(replay, status=st2, second=exported2), signature="C14:fold-ws")
+            elif st2 != 201 or X.facts(exported2) != X.facts(exported):
                 fail("whole-fixed", "re-uploading an exported calendar gives status %s / other content" % st2, dict(replay, second=exported2))
         # (e) split correspondence: the real prepare() against Model/Split.v
         split_cases.append(split_case(ritem, rput, tree, rng))
